@@ -11,7 +11,7 @@ THEOREMS = ['C04_pstep_matrix', 'C04_ptrace_is_atrace', 'C04_atrace_abcd', 'C04_
             'C04_tg_forward_matrix', 'C04_XPL_from_matrix', 'C04_marginal_ray_matrix_infinite',
             'C04_marginal_ray_matrix_finite', 'C04_magnification_matrix', 'C04_magnification_is_A',
             'C04_wf_inverted', 'C04_tg_reverse_matrix', 'C04_EPL_from_matrix',
-            'C04_reversed_system_matrix', 'C04_reversed_entries', 'C04_f1_F1_from_forward_matrix']
+            'C04_reversed_system_matrix', 'C04_reversed_entries', 'C04_f1_F1_from_forward_matrix', 'C04_EPL_classical']
 COQ_TARGETS = ['Model/Paraxial.vo']
 TRUSTED_BASE = BASE_TRUSTED + [
     'hand model coq/Model/Paraxial.v (composition of traces into f1 f2 F1 F2 P1 P2 N1 N2 EPL EPD XPL XPD FNO '
@@ -23,7 +23,7 @@ RULE = ('seeded axially symmetric prescriptions of 1-12 planes/spheres/conics/as
         'stop first/interior/last, finite and infinite objects, EPD/imageFNO/objectNA, angle/height fields; every Paraxial query '
         'compared with the Coq model (FOps) and with independent matrix optics; non-trivial = distinct lens with a finite f2')
 PARTIAL = ['cardinal points / pupils: theorems give f2 = -1/C and F2 = -A/C of the system matrix (focal_from_matrix), XPL = -B/D of the surfaces behind '
-           'the stop (XPL_from_matrix), EPL = B/D of the reversed surfaces in front of the stop with SurfaceGroup.inverted proved to be the reversed '
+           'the stop (XPL_from_matrix), EPL = (B + eD)/(A + eC) - d of the FORWARD matrix of the surfaces in front of the stop (EPL_classical) with SurfaceGroup.inverted proved to be the reversed '
            'abstract system (wf_inverted, EPL_from_matrix), the reversed-system matrix M\' = T(-d) J M^-1 J T(e) (reversed_system_matrix, mirrors included) '
            'and with it f1 = det M / C and F1 = (D - C)/C of the FORWARD matrix (f1_F1_from_forward_matrix), the marginal ray as accumulated matrices applied to (EPD/2, 0) or (0, EPD/2(EPL-z_obj)) '
            '(marginal_ray_matrix_*), magnification = n0/(n_last D) = A in the conjugate plane (magnification_matrix, magnification_is_A); for P, N, '
